@@ -8,9 +8,11 @@ import (
 	"go/constant"
 	"go/types"
 	"math"
+	"path/filepath"
 	"sort"
 	"strconv"
 	"strings"
+	"time"
 	"unicode/utf8"
 
 	"github.com/go-spring/stdlib/flatten"
@@ -287,6 +289,37 @@ func (ip *Interp) model2(fn *ssa.Function, name string, args []AV) (AV, bool) {
 		return kInt(ip.timeOf(args[0]).T.UnixNano()), true
 	case "(time.Time).UnixMilli":
 		return kInt(ip.timeOf(args[0]).T.UnixMilli()), true
+	case "(time.Time).Truncate":
+		return &TimeV{T: ip.timeOf(args[0]).T.Truncate(time.Duration(avInt(args[1])))}, true
+	case "(time.Time).Add":
+		return &TimeV{T: ip.timeOf(args[0]).T.Add(time.Duration(avInt(args[1])))}, true
+	case "(time.Time).Sub":
+		return kInt(int64(ip.timeOf(args[0]).T.Sub(ip.timeOf(args[1]).T))), true
+	case "(time.Time).Before":
+		return kBool(ip.timeOf(args[0]).T.Before(ip.timeOf(args[1]).T)), true
+	case "(time.Time).After":
+		return kBool(ip.timeOf(args[0]).T.After(ip.timeOf(args[1]).T)), true
+	case "(time.Time).Equal":
+		return kBool(ip.timeOf(args[0]).T.Equal(ip.timeOf(args[1]).T)), true
+	case "(time.Time).Compare":
+		return kInt(int64(ip.timeOf(args[0]).T.Compare(ip.timeOf(args[1]).T))), true
+	case "time.Parse":
+		t, err := time.Parse(s(0), s(1))
+		if err != nil {
+			return TupleV{&TimeV{}, ip.errVal(err.Error())}, true
+		}
+		return TupleV{&TimeV{T: t}, NilV{}}, true
+	case "time.Since":
+		if ip.Clock != nil {
+			return kInt(int64(ip.Clock().Sub(ip.timeOf(args[0]).T))), true
+		}
+		ood("time.Since without a clock")
+	case "path/filepath.Join":
+		return kStr(filepath.Join(avStrings(args[0])...)), true
+	case "path/filepath.Base":
+		return kStr(filepath.Base(s(0))), true
+	case "path/filepath.Dir":
+		return kStr(filepath.Dir(s(0))), true
 	case "(time.Time).IsZero":
 		return kBool(ip.timeOf(args[0]).T.IsZero()), true
 	case "(time.Time).Date":
@@ -309,7 +342,7 @@ func (ip *Interp) model2(fn *ssa.Function, name string, args []AV) (AV, bool) {
 		return kInt(int64(ip.timeOf(args[0]).T.Second())), true
 	}
 	// ---- sync/atomic typed values: (*atomic.Int64).Load etc. on an addressable cell
-	if recv := fn.Signature.Recv(); recv != nil && fn.Pkg != nil && fn.Pkg.Pkg.Path() == "sync/atomic" && len(args) > 0 {
+	if recv := fn.Signature.Recv(); recv != nil && strings.HasPrefix(name, "(*sync/atomic.") && len(args) > 0 {
 		p, ok := args[0].(*Ptr)
 		if !ok {
 			ood("atomic receiver")
